@@ -1,12 +1,17 @@
 """spec/Channel.tla: model checking of the implementation-shaped connection
 model and trace validation of real executions against it.
 
-The model slice covers: accept, plain and `Connection: close` requests
-(pipelined, lookahead), responses of two write_soon calls, partial sends,
-select-based poll, 1..2 workers.  Scenarios outside the slice (Expect, socket
-faults, watermark waits, poll()) are explored on the code with the monitor
-only; the evidence says which scenarios were bound to the model."""
+The model counts output in bytes and covers: accept, plain / `Connection:
+close` / `Expect: 100-continue` requests (pipelined, lookahead), responses as
+sequences of write_soon calls of the recorded sizes, partial sends, send_bytes,
+the high-watermark wait (Condition wait/notify), send faults (disconnect and
+other errnos), a client that goes away, select-based poll, 1..2 workers.
+Scenarios outside the slice (recv faults, poll(), file wrappers, application
+errors, a second connection) are explored on the code with the monitor only;
+the evidence names the scenarios that were bound to the model."""
 import concurrent.futures as cf
+import copy
+import errno
 import json
 import os
 import re
@@ -18,7 +23,10 @@ from wv.par import pmap
 
 CORE = ("requests", "total_outbufs_len", "will_close", "close_when_flushed", "connected")
 OBJS = ["total_outbufs_len", "close_when_flushed", "will_close", "requests_lock", "outbuf_lock", "requests", "connected", "trigger", "sock", "next", "loop", "L"]
-SUFFIX = re.compile(r"_(\d|c|s|e|io|w|ws|svc|scio|scw)$")
+SUFFIX = re.compile(r"_(\d|a|c|s|e|io|w|ws|svc|scio|scw|hww|hws|hxw|hxs|xw|xs)$")
+KINDS = ("rd", "wr", "acq", "tryacq", "rel", "notify", "wait", "send", "recv", "drain", "drained", "pull", "pulled", "select", "accept", "close", "app")
+CLIENT_LABELS = ("cl_connect", "cl_send", "cl_read", "cl_await100", "cl_close")
+INTERIM = 25
 
 
 def labels():
@@ -36,10 +44,10 @@ def labels():
                 rest = base[: -len(o) - 1]
                 if "_" in rest:
                     func, kind = rest.rsplit("_", 1)
-                    if kind in ("rd", "wr", "acq", "tryacq", "rel", "notify", "wait", "send", "recv", "drain", "pull", "select", "accept", "close", "app"):
+                    if kind in KINDS:
                         hit = "%s.%s.%s" % (func, kind, o)
                         break
-        if n in ("cl_connect", "cl_send", "cl_read", "cl_await100"):
+        if n in CLIENT_LABELS:
             hit = "client.%s" % n[3:]
         if hit:
             sig[n] = hit
@@ -53,7 +61,7 @@ def event_sig(name, label):
     kind, obj, func = (list(label) + ["?", "?"])[:3]
     func = func.strip("_")
     if kind == "client":
-        return "client.%s" % {"connect": "connect", "send": "send", "read": "read", "await100": "await100"}.get(obj, obj)
+        return "client.%s" % obj
     if kind in ("rd", "wr"):
         return "%s.%s.%s" % (func, kind, obj) if obj in CORE else None
     if kind in ("acq", "tryacq", "rel", "notify", "wait"):
@@ -64,38 +72,112 @@ def event_sig(name, label):
         return "%s.accept.L" % func
     if kind == "select":
         return "%s.select.loop" % func
-    if kind in ("pull", "drain"):
+    if kind in ("pull", "drain", "pulled", "drained"):
         return "%s.%s.trigger" % (func, kind)
     if kind == "app":
-        return "%s.app.next" % func
+        return "%s.app.next" % func if obj == "next" else None
     return None
 
 
-def constants_of(scn):
-    """scenario of checks/chan_common.mk -> TLA+ definitions, or None when outside the model slice"""
+def to_tla(v):
+    if isinstance(v, bool):
+        return "TRUE" if v else "FALSE"
+    if isinstance(v, int):
+        return str(v)
+    if isinstance(v, str):
+        return '"%s"' % v
+    if isinstance(v, (list, tuple)):
+        return "<<%s>>" % ", ".join(to_tla(x) for x in v)
+    if isinstance(v, dict):
+        return "[%s]" % ", ".join("%s |-> %s" % (k, to_tla(x)) for k, x in v.items())
+    raise TypeError(v)
+
+
+def in_slice(scn):
     c = scn["conns"]
-    if len(c) != 1 or scn.get("use_poll") or c[0].get("faults") or scn.get("accept_faults"):
+    if len(c) != 1 or scn.get("use_poll") or scn.get("accept_faults"):
+        return False
+    if set((c[0].get("faults") or {}).keys()) - {"send"}:
+        return False
+    reqs = c[0]["requests"]
+    if [r["k"] for r in reqs] != list(range(1, len(reqs) + 1)):
+        return False
+    if any(r.get("kind", "plain") not in ("plain", "close", "expect") or r.get("headers") for r in reqs):
+        return False
+    if set(scn["adj"]) - {"channel_request_lookahead", "send_bytes", "outbuf_high_watermark"}:
+        return False
+    for v in scn.get("apps", {}).values():
+        if set(v) - {"chunks", "cl", "write"} or v.get("cl", "exact") not in ("exact", "none") or "sync" in v.get("chunks", []):
+            return False
+    if (c[0].get("faults") or {}).get("send") and any(r.get("kind") == "expect" for r in reqs):
+        return False      # an error inside send_continue's flush leaves received()/service(): not modelled
+    return all(a[0] in ("connect", "send", "read", "readall", "readall_after_block", "read_after_block", "await100", "close") for a in c[0]["client"])
+
+
+def write_sizes(scn):
+    """sizes of the write_soon calls of every response, recorded from one execution of the scenario with a
+    client that only sends and reads everything (no faults, no stall)"""
+    from wv.core import repo_on_path
+    repo_on_path()
+    s2 = copy.deepcopy(scn)
+    c = s2["conns"][0]
+    c["client"] = [a for a in c["client"] if a[0] in ("connect", "send", "await100")]
+    c["room"] = None
+    c.pop("faults", None)
+    s2["adj"] = {k: v for k, v in s2["adj"].items() if k == "channel_request_lookahead"}
+    sizes = {}
+
+    def build(S):
+        ctx = h_channel.Ctx(S, s2)
+        orig = ctx.on_write_soon
+
+        def cur():
+            starts = [e for e in ctx.events if e["k"] == "app_start"]
+            return starts[-1]["r"] if starts else None
+
+        def ows(chan, data):
+            if cur() is not None and len(data) != INTERIM:
+                sizes.setdefault(cur(), []).append(len(data))
+            return orig(chan, data)
+        ctx.on_write_soon = ows
+
+        ctx.on_app_next = lambda: sizes.setdefault(cur(), []).append(0) if cur() is not None else None      # the iterator is advanced
+        return ctx
+    res, _ = explore.run_once(build, explore.Replay([]), budget=6000)
+    n = len(c["requests"])
+    if res[-1].get("status") not in ("quiescent", "done") or sorted(sizes) != list(range(1, len(sizes) + 1)):
         return None
-    reqs = {r["k"]: r for r in c[0]["requests"]}
-    if any(r.get("kind", "plain") not in ("plain", "close", "expect") or r.get("headers") for r in reqs.values()):
+    finals = [r for r in res[-1]["conns"][0]["resp"] if not r.get("interim")]
+    if len(finals) != len(sizes) or (len(sizes) < n and not finals[-1].get("close")):
         return None
+    # requests behind a closing exchange are never executed: no writes
+    return [sizes.get(k, []) for k in range(1, n + 1)], [bool(finals[k - 1].get("close")) if k <= len(finals) else False for k in range(1, n + 1)]
+
+
+def constants_of(scn):
+    """scenario of checks/chan_common.mk -> the model's cfg record (python form), or None when outside the slice"""
+    if not in_slice(scn):
+        return None
+    from waitress.wasyncore import _DISCONNECTED
+    c = scn["conns"][0]
+    reqs = {r["k"]: r for r in c["requests"]}
     a = scn["adj"]
-    if a.get("send_bytes", 1) != 1 or "outbuf_high_watermark" in a:
+    rec = write_sizes(scn)
+    if rec is None:
         return None
-    apps = scn.get("apps", {})
-    if any(v.get("chunks", [3]) != [3] or v.get("cl", "exact") != "exact" or v.get("write") or v.get("raise_at") is not None for v in apps.values()):
-        return None
-    sends, ops = [], []
-    P = lambda k, what: "[rid |-> %d, close |-> %s, what |-> \"%s\"]" % (k, "TRUE" if reqs[k].get("kind") == "close" else "FALSE", what)
+    writes, closes = rec
+    P = lambda k, what: {"rid": k, "close": closes[k - 1], "what": what}
     # the byte stream as a sequence of pieces; a send must end on a piece boundary to be in the slice
     stream = []
-    for r in c[0]["requests"]:
+    for r in c["requests"]:
         h, b = h_channel.request_bytes(r)
         if r.get("kind") == "expect":
             stream += [(len(h), P(r["k"], "head")), (len(b), P(r["k"], "body"))]
         else:
             stream.append((len(h) + len(b), P(r["k"], "full")))
-    for act in c[0]["client"]:
+    sends, ops = [], []
+    O = lambda op, n=0, after=0: {"op": op, "n": n, "after": after}
+    for act in c["client"]:
         if act[0] == "send":
             n, ps = len(act[1]), []
             while n > 0 and stream and stream[0][0] <= n:
@@ -103,25 +185,27 @@ def constants_of(scn):
                 ps.append(stream.pop(0)[1])
             if n != 0 or not ps:
                 return None
-            sends.append("<<%s>>" % ", ".join(ps))
-            ops.append('[op |-> "send", n |-> 0, after |-> 0]')
+            sends.append(ps)
+            ops.append(O("send"))
         elif act[0] == "read":
-            return None      # byte-granular partial sends: the model counts whole write_soon units
+            ops.append(O("read", act[1]))
         elif act[0] == "readall":
-            ops.append('[op |-> "read", n |-> -1, after |-> 0]')
+            ops.append(O("read", -1))
         elif act[0] == "readall_after_block":
-            ops.append('[op |-> "read", n |-> -1, after |-> %d]' % act[1])
+            ops.append(O("read", -1, act[1]))
         elif act[0] == "read_after_block":
-            return None
+            ops.append(O("read", act[2], act[1]))
         elif act[0] == "await100":
-            ops.append('[op |-> "await100", n |-> %d, after |-> 0]' % act[1])
-        elif act[0] != "connect":
-            return None
-    room = c[0].get("room")
-    if room not in (None, 0):
-        return None
-    return {"MSends": "<<%s>>" % ", ".join(sends), "MOps": "<<%s>>" % ", ".join(ops), "MRoom": "-1" if room is None else str(room),
-            "MWorkers": "{%s}" % ", ".join('"w%d"' % i for i in range(scn.get("workers", 1))), "Lookahead": a.get("channel_request_lookahead", 0)}
+            ops.append(O("await100", act[1]))
+        elif act[0] == "close":
+            ops.append(O("close"))
+    room = c.get("room")
+    sf = []
+    for e in (c.get("faults") or {}).get("send", []):
+        sf.append("ok" if e is None else ("disc" if e in _DISCONNECTED else "hard"))
+    return {"sends": sends, "writes": writes, "interim": INTERIM, "lookahead": a.get("channel_request_lookahead", 0),
+            "sendbytes": a.get("send_bytes", 1), "hwm": a.get("outbuf_high_watermark", 16777216), "sndbuf": c.get("sndbuf", 65536),
+            "room": -1 if room is None else room, "ops": ops, "sfaults": sf, "workers": scn.get("workers", 1)}
 
 
 def record(args):
@@ -154,6 +238,7 @@ def record(args):
             return ctx
         res, steps = explore.run_once(build, policy, budget=3000)
         return evs, [c for (_, c) in steps], res[-1].get("status")
+
     def keep(evs, choices, status):
         out.append({"ev": evs, "choices": choices, "status": status})
     e, c, st = one(explore.Replay([]))
@@ -170,13 +255,15 @@ def record(args):
     return uniq
 
 
-MC_INVS = ["WireIsPrefix", "ResponsesInOrder", "InterimPlacement", "ClientNotLeftWaiting", "InOrderExactlyOnce", "OneAtATime", "NoExecAfterCloseDecision", "TornOnceByIO", "NoCrash", "NoLostWakeup", "AllAnswered"]
+MC_INVS = ["WireIsPrefix", "ResponsesInOrder", "InterimPlacement", "ClientNotLeftWaiting", "InOrderExactlyOnce", "OneAtATime", "NoExecAfterCloseDecision",
+           "TornOnceByIO", "NoCrash", "NoLostWakeup", "AllAnswered", "BacklogBounded", "ProducerReleased", "DeadConnectionClosed"]
 
 
-def write_mc_module(wd, name, consts, extends="Channel"):
+def write_module(wd, name, cfg=None, extends="Channel", workers=1):
     with open(os.path.join(wd, name + ".tla"), "w") as f:
-        f.write("---- MODULE %s ----\nEXTENDS %s\nMSends == %s\nMWorkers == %s\nMRoom == %s\nMOps == %s\n" % (
-            name, extends, consts["MSends"], consts["MWorkers"], consts["MRoom"], consts["MOps"]))
+        f.write("---- MODULE %s ----\nEXTENDS %s\nMWorkers == {%s}\n" % (name, extends, ", ".join('"w%d"' % i for i in range(workers))))
+        if cfg is not None:
+            f.write("MCfgSet == {%s}\n" % to_tla({k: v for k, v in cfg.items() if k != "workers"}))
         if extends != "Channel":
             sig, internal = labels()
             f.write("MSig == [x \\in {%s} |-> CASE %s]\n" % (", ".join('"%s"' % k for k in sig), " [] ".join('x = "%s" -> "%s"' % kv for kv in sig.items())))
@@ -184,28 +271,69 @@ def write_mc_module(wd, name, consts, extends="Channel"):
         f.write("====\n")
 
 
-CFG = ("CONSTANTS Sends <- MSends\nWorkers <- MWorkers\nRoomInit <- MRoom\nClientOps <- MOps\nLookahead = %d\nSendBytes = 1\nHWM = 16777216\nRespUnits = 2\n%sCHECK_DEADLOCK FALSE\n")
-
-
 def mc_scenarios(thorough):
-    R = lambda r, c="FALSE", w="full": '[rid |-> %d, close |-> %s, what |-> "%s"]' % (r, c, w)
-    SEND, ALL, AW = '[op |-> "send", n |-> 0, after |-> 0]', '[op |-> "read", n |-> -1, after |-> 1]', lambda n: '[op |-> "await100", n |-> %d, after |-> 0]' % n
-    RD = lambda n, after=0: '[op |-> "read", n |-> %d, after |-> %d]' % (n, after)
-    O = lambda *xs: "<<%s>>" % ", ".join(xs)
-    S = [({"MSends": "<< <<%s, %s>> >>" % (R(1), R(2)), "MWorkers": '{"w0"}', "MRoom": "-1", "MOps": O(SEND), "Lookahead": 0}, "2 pipelined, same read, la=0", "C04 C05 C11"),
-         ({"MSends": "<< <<%s>>, <<%s>> >>" % (R(1), R(2)), "MWorkers": '{"w0"}', "MRoom": "0", "MOps": O(SEND, SEND, ALL), "Lookahead": 1}, "2 requests, later read, slow client, la=1", "C04 C05"),
-         ({"MSends": "<< <<%s, %s>> >>" % (R(1, "TRUE"), R(2)), "MWorkers": '{"w0"}', "MRoom": "1", "MOps": O(SEND, ALL), "Lookahead": 1}, "close then plain, la=1", "C04 C05 C11"),
-         ({"MSends": "<< <<%s, %s>>, <<%s>> >>" % (R(1), R(2, w="head"), R(2, w="body")), "MWorkers": '{"w0"}', "MRoom": "-1", "MOps": O(SEND, AW(1), SEND), "Lookahead": 1},
-          "plain + expecting head in one read, client waits for the interim response, la=1", "C04 C19"),
-         ({"MSends": "<< <<%s>>, <<%s, %s>> >>" % (R(1, w="head"), R(1, w="body"), R(2)), "MWorkers": '{"w0"}', "MRoom": "0", "MOps": O(SEND, ALL, AW(1), SEND), "Lookahead": 0},
-          "expecting request alone, client waits, then body + plain, slow client, la=0", "C19")]
+    """small scenarios for exhaustive search: (cfg, name, properties it is run for in the quick tier)"""
+    R = lambda r, c=False, w="full": {"rid": r, "close": c, "what": w}
+    O = lambda op, n=0, after=0: {"op": op, "n": n, "after": after}
+    SEND, ALL, AW = O("send"), O("read", -1, 1), lambda n: O("await100", n)
+    base = {"interim": 1, "sendbytes": 1, "hwm": 1000, "sndbuf": 100, "room": -1, "sfaults": [], "lookahead": 0, "workers": 1}
+
+    def M(**kw):
+        d = dict(base)
+        d.update(kw)
+        return d
+    W2 = [[2, 1], [2, 1], [1, 1]]
+    W1 = [[0, 2, 0], [1], [1]]
+    # (name, properties served in the quick tier, quick cfg, thorough cfg or None = same)
+    T = [("2 pipelined, same read, la=0", "C04 C05 C11",
+          M(sends=[[R(1), R(2)]], writes=W2, ops=[SEND]), None),
+         ("2 requests, later read, slow client, la=1", "C04 C05",
+          M(sends=[[R(1)], [R(2)]], writes=W1, ops=[SEND, SEND, ALL], room=0, lookahead=1),
+          M(sends=[[R(1)], [R(2)]], writes=W2, ops=[SEND, SEND, ALL], room=0, lookahead=1)),
+         ("close then plain, la=1", "C04 C05 C11",
+          M(sends=[[R(1, True), R(2)]], writes=W2, ops=[SEND, ALL], room=1, lookahead=1), None),
+         ("plain + expecting head in one read, client waits for the interim response, la=1", "C04 C19",
+          M(sends=[[R(1), R(2, w="head")], [R(2, w="body")]], writes=W2, ops=[SEND, AW(1), SEND], lookahead=1), None),
+         ("expecting request alone, client waits, then body + plain, slow client, la=0", "C19",
+          M(sends=[[R(1, w="head")], [R(1, w="body"), R(2)]], writes=W2, ops=[SEND, ALL, AW(1), SEND], room=0), None),
+         ("partial sends with two out buffers pending, la=1", "C04",
+          M(sends=[[R(1), R(2)]], writes=[[2], [1]], ops=[SEND, O("read", 1, 1), O("read", -1, 2)], room=1, lookahead=1),
+          M(sends=[[R(1), R(2)]], writes=[[3, 2], [1]], ops=[SEND, O("read", 2, 1), O("read", 2, 2), ALL], room=1, lookahead=1)),
+         ("producer above the mark, reader takes a little, then all", "C12 C05",
+          M(sends=[[R(1)]], writes=[[2, 2]], ops=[SEND, O("read", 1, 1), O("read", -1, 2)], room=1, hwm=1),
+          M(sends=[[R(1)]], writes=[[2, 2, 2]], ops=[SEND, O("read", 1, 1), O("read", 2, 2), O("read", -1, 3)], room=1, hwm=2)),
+         ("mark = 0, reader takes a little, then all", "C12",
+          M(sends=[[R(1)]], writes=[[2, 2]], ops=[SEND, O("read", 1, 1), O("read", -1, 2)], room=0, hwm=0),
+          M(sends=[[R(1)]], writes=[[2, 2, 2]], ops=[SEND, O("read", 3, 1), O("read", -1, 2)], room=0, hwm=0)),
+         ("send_bytes above the mark", "C12 C05",
+          M(sends=[[R(1)]], writes=[[3, 3]], ops=[SEND, O("read", -1, 1)], room=0, hwm=1, sendbytes=5), None),
+         ("producer above the mark, client goes away", "C12 C13",
+          M(sends=[[R(1)]], writes=[[2, 2]], ops=[SEND, O("close")], room=1, hwm=1),
+          M(sends=[[R(1)]], writes=[[2, 2, 2]], ops=[SEND, O("read", 1, 1), O("close")], room=1, hwm=2)),
+         ("second send fails with an errno reported to the caller, request queued behind, la=1", "C13 C11",
+          M(sends=[[R(1), R(2)]], writes=[[2, 1], [1]], ops=[SEND], sfaults=["ok", "hard"], lookahead=1), None),
+         ("first send fails with a disconnect errno, request queued behind, la=1", "C13 C11",
+          M(sends=[[R(1), R(2)]], writes=[[2, 1], [1]], ops=[SEND], sfaults=["disc"], lookahead=1), None),
+         ("producer above the mark, a later send fails", "C13 C12",
+          M(sends=[[R(1)]], writes=[[2, 2]], ops=[SEND, O("read", -1, 1)], room=1, hwm=1, sfaults=["ok", "ok", "ok", "hard"]),
+          M(sends=[[R(1)]], writes=[[2, 2, 2]], ops=[SEND, O("read", 1, 1), O("read", -1, 2)], room=1, hwm=1, sfaults=["ok", "ok", "ok", "ok", "hard"])),
+         ("producer above the mark, lookahead=1, client goes away (seen by recv)", "C13 C12",
+          M(sends=[[R(1)]], writes=[[2, 2, 2]], ops=[SEND, O("close")], room=0, hwm=1, lookahead=1), None)]
+    # quick variants are also checked for the liveness property ComesToRest (fair scheduling); the larger ones for safety only
+    S = [(q, name, props, True) for name, props, q, t in T]
     if thorough:
-        S += [({"MSends": "<< <<%s>>, <<%s>> >>" % (R(1), R(2)), "MWorkers": '{"w0", "w1"}', "MRoom": "0", "MOps": O(SEND, SEND, RD(1), ALL), "Lookahead": 1}, "2 workers, partial drain, la=1", ""),
-              ({"MSends": "<< <<%s, %s>>, <<%s>> >>" % (R(1), R(2, "TRUE"), R(3)), "MWorkers": '{"w0", "w1"}', "MRoom": "1", "MOps": O(SEND, SEND, ALL), "Lookahead": 2}, "plain, close | plain, la=2, 2 workers", ""),
-              ({"MSends": "<< <<%s>>, <<%s>>, <<%s>>, <<%s>> >>" % (R(1, w="head"), R(1, w="body"), R(2, w="head"), R(2, w="body")), "MWorkers": '{"w0"}', "MRoom": "1",
-                "MOps": O(SEND, ALL, AW(1), SEND, SEND, AW(2), SEND), "Lookahead": 1}, "two expecting requests, slow client, la=1", ""),
-              ({"MSends": "<< <<%s>>, <<%s, %s>>, <<%s>> >>" % (R(1), R(2), R(3, w="head"), R(3, w="body")), "MWorkers": '{"w0", "w1"}', "MRoom": "-1",
-                "MOps": O(SEND, SEND, AW(1), SEND), "Lookahead": 2}, "plain | plain + expecting head, 2 workers, la=2", "")]
+        S += [(t, name + " (larger)", "", False) for name, props, q, t in T if t is not None]
+    if thorough:
+        S += [(M(sends=[[R(1)], [R(2)]], writes=W2, ops=[SEND, SEND, O("read", 1), ALL], room=0, lookahead=1, workers=2), "2 workers, partial drain, la=1", "", False),
+              (M(sends=[[R(1), R(2, True)], [R(3)]], writes=W2, ops=[SEND, SEND, ALL], room=1, lookahead=2, workers=2), "plain, close | plain, la=2, 2 workers", "", False),
+              (M(sends=[[R(1, w="head")], [R(1, w="body")], [R(2, w="head")], [R(2, w="body")]], writes=W2, ops=[SEND, ALL, AW(1), SEND, SEND, AW(2), SEND], room=1, lookahead=1),
+               "two expecting requests, slow client, la=1", "", False),
+              (M(sends=[[R(1)], [R(2), R(3, w="head")], [R(3, w="body")]], writes=W2, ops=[SEND, SEND, AW(1), SEND], lookahead=2, workers=2),
+               "plain | plain + expecting head, 2 workers, la=2", "", False),
+              (M(sends=[[R(1), R(2)]], writes=[[2, 2], [2]], ops=[SEND, O("read", 1, 1), O("read", 2, 2), O("read", -1, 3)], room=1, hwm=1, lookahead=1, workers=2),
+               "two producers above the mark, 2 workers, la=1", "", False),
+              (M(sends=[[R(1), R(2)]], writes=[[2, 2], [2]], ops=[SEND, O("read", 1, 1), O("close")], room=1, hwm=1, lookahead=1, sfaults=["ok", "ok", "disc"]),
+               "producer above the mark, disconnect errno, then the client goes away, la=1", "", False)]
     return S
 
 
@@ -213,18 +341,20 @@ def model_check(chk, pid, scns=None, n_traces=None):
     """(1) TLC exhausts the interleavings of the model on small scenarios; (2) executions of the
     real server, recorded at the model's alphabet, are validated against the model."""
     def mc(item):
-        consts, name = item[:2]
+        cfg, name = item[:2]
         wd = tlc.scratch("chan")
         try:
-            write_mc_module(wd, "MC_Chan", consts)
-            cfg = "SPECIFICATION Spec\n" + CFG % (consts["Lookahead"], "") + "".join("INVARIANT %s\n" % i for i in MC_INVS)
-            return tlc.run("MC_Chan", cfg, workdir=wd, workers=5, timeout=2400)
+            write_module(wd, "MC_Chan", cfg, workers=cfg["workers"])
+            text = "SPECIFICATION Spec\nCONSTANTS CfgSet <- MCfgSet\nWorkers <- MWorkers\nCHECK_DEADLOCK FALSE\n" + "".join("INVARIANT %s\n" % i for i in MC_INVS)
+            if item[3]:
+                text += "PROPERTY ComesToRest\n"
+            return tlc.run("MC_Chan", text, workdir=wd, workers=5, timeout=3000)
         finally:
             shutil.rmtree(wd, ignore_errors=True)
     items = [it for it in mc_scenarios(chk.thorough) if chk.thorough or pid in it[2].split()]
     with cf.ThreadPoolExecutor(3) as ex:
         for item, r in zip(items, ex.map(mc, items)):
-            chk.add_tlc("MC:Channel %s" % item[1], r, "every interleaving at visible-operation granularity")
+            chk.add_tlc("MC:Channel %s" % item[1], r, "every interleaving at visible-operation granularity" + ("; safety invariants + liveness (comes to rest under fair scheduling)" if item[3] else "; safety invariants"))
             if r.violated:
                 chk.violation({"kind": "model", "invariant": r.violated, "scenario": item[1]},
                               "Channel.tla (the model of the code) violates %s in scenario '%s'; last state:\n%s" % (r.violated, item[1], "\n".join(r.trace[-1:])[:1200]))
@@ -236,28 +366,44 @@ def model_check(chk, pid, scns=None, n_traces=None):
         return
     n = n_traces if n_traces is not None else (60 if chk.thorough else 12)
     recs = pmap(record, [(s, chk.seed + i, n, 0) for i, (s, _) in enumerate(bound)])
+    groups = {}
+    for (scn, cfg), traces in zip(bound, recs):
+        g = groups.setdefault(cfg["workers"], [])
+        c = {k: v for k, v in cfg.items() if k != "workers"}
+        for t in traces:
+            g.append({"id": len(g), "scn": scn.get("name"), "cfg": c, "ev": t["ev"]})
 
     def tvrun(item):
-        (scn, consts), traces = item
+        workers, traces = item
         wd = tlc.scratch("tvch")
         try:
-            write_mc_module(wd, "TV_Chan", consts, extends="Trace_Channel")
+            write_module(wd, "TV_Chan", None, extends="Trace_Channel", workers=workers)
             path = os.path.join(wd, "traces.json")
             with open(path, "w") as f:
-                json.dump([{"id": i, "ev": t["ev"]} for i, t in enumerate(traces)], f)
-            cfg = "SPECIFICATION TraceSpec\n" + CFG % (consts["Lookahead"], "SigOf <- MSig\nInternal <- MInternal\n")
-            return tlc.run("TV_Chan", cfg, workdir=wd, workers=4, timeout=1200, env={"WV_TRACES": path})
+                json.dump([{"id": t["id"], "cfg": t["cfg"], "ev": t["ev"]} for t in traces], f)
+            text = "SPECIFICATION TraceSpec\nCONSTANTS CfgSet <- TraceCfgs\nWorkers <- MWorkers\nSigOf <- MSig\nInternal <- MInternal\nCHECK_DEADLOCK FALSE\n"
+            # one TLC worker: the search is linear, and several workers contend on the deserialised trace values
+            return tlc.run("TV_Chan", text, workdir=wd, workers=1, timeout=2400, env={"WV_TRACES": path})
         finally:
             shutil.rmtree(wd, ignore_errors=True)
-    with cf.ThreadPoolExecutor(4) as ex:
-        for ((scn, consts), traces), r in zip(zip(bound, recs), ex.map(tvrun, list(zip(bound, recs)))):
-            chk.add_tlc("TV:Channel %s" % scn.get("name"), r, "%d recorded executions validated step by step" % len(traces))
+    CH = 120
+    items = []
+    for workers, traces in sorted(groups.items()):
+        for i in range(0, len(traces), CH):
+            items.append((workers, traces[i:i + CH]))
+    with cf.ThreadPoolExecutor(6) as ex:
+        for (workers, traces), r in zip(items, ex.map(tvrun, items)):
+            chk.add_tlc("TV:Channel %d worker(s), %d scenarios" % (workers, len({t["scn"] for t in traces})), r, "%d recorded executions validated step by step" % len(traces))
             acc = {t[0] for t in tlc.printed_tuples(r, "ACC")}
             rej = {t[0]: t for t in tlc.printed_tuples(r, "REJ")}
             if len(acc) + len(rej) != len(traces):
                 raise MachineryFailure("Trace_Channel: %d traces, %d accepted, %d rejected\n%s" % (len(traces), len(acc), len(rej), r.out[-1500:]))
             chk.traces_validated += len(acc)
-            for i, t in list(rej.items())[:3]:
-                chk.note_drift("execution of '%s' is not a behaviour of Channel.tla: event %d, thread expected at label %s, real operation %s" % (scn.get("name"), t[1], t[2], t[3]))
-            if rej and len(chk.drift) >= 20:
-                break
+            byid = {t["id"]: t for t in traces}
+            shown = {}
+            for i, t in sorted(rej.items()):
+                name = byid[int(i)]["scn"]
+                if shown.get(name, 0) >= 2:
+                    continue
+                shown[name] = shown.get(name, 0) + 1
+                chk.note_drift("execution of '%s' is not a behaviour of Channel.tla: event %d, thread expected at label %s, real operation %s" % (name, t[1], t[2], t[3]))
